@@ -80,6 +80,34 @@ var refOpts = []gojq.CompilerOption{
 	gojq.WithFunction("input_filename", 0, 0, func(any, []any) any { return nil }),
 }
 
+// refAppliesFromjsonToNonString: does the REFERENCE run of prog on in apply the builtin fromjson to a value
+// that is not a string? (fq extends fromjson's domain: arrays of bytes/strings, binaries … are converted to a
+// binary and decoded; standard jq fails.) Such (program, input) pairs are outside the generated domain —
+// decided with the reference alone, before fq is run. The marker wrapper is used for this question only;
+// the observation that is compared comes from the unmodified program.
+func refAppliesFromjsonToNonString(prog string, in any) (hit bool) {
+	if !strings.Contains(prog, "fromjson") {
+		return false
+	}
+	_, _ = hlib.Catch(func() string {
+		q, err := gojq.Parse(`def _c07_fj: fromjson; def fromjson: if type == "string" then _c07_fj else (_c07_mark | _c07_fj) end; ` + prog)
+		if err != nil {
+			return ""
+		}
+		opts := append([]gojq.CompilerOption{}, refOpts...)
+		opts = append(opts, gojq.WithFunction("_c07_mark", 0, 0, func(v any, _ []any) any { hit = true; return v }))
+		code, err := gojq.Compile(q, opts...)
+		if err != nil {
+			return ""
+		}
+		ctx, cancel := context.WithTimeout(context.Background(), evalTimeout)
+		defer cancel()
+		drain(code.RunWithContext(ctx, nil, in), ctx)
+		return ""
+	})
+	return hit
+}
+
 func runRef(prog string, in any) Obs { return runRefT(prog, in, evalTimeout) }
 
 func runRefT(prog string, in any, to time.Duration) (res Obs) {
@@ -161,6 +189,11 @@ func (f *fqInst) evalDirectT(prog string, to time.Duration) (res Obs) {
 		defer cancel()
 		it, err := f.i.Eval(ctx, nil, prog, interp.EvalOpts{})
 		if err != nil {
+			if ctx.Err() != nil {
+				// the module loader checks the context (interp.go:831): a slow compile on a loaded machine
+				res = Obs{End: "timeout"}
+				return ""
+			}
 			// interp.go:784-794 / 950-958: compileError{what: "parse"|"compile"}
 			what := "compile"
 			if strings.Contains(err.Error(), ": parse: ") {
@@ -274,25 +307,28 @@ var _ = fmt.Sprintf
 
 // ---------------------------------------------------------------- known-finding classification
 
-// A disagreement is attributed to the recorded finding `c07-fromjson-decode-value-index` only if
-//   - the program text contains `fromjson`,
-//   - it does NOT vanish when merely a decode-value *argument* of fromjson is converted first (preludeArg: that
-//     is a different mechanism — fromjson of a root string decode value re-decodes its buffer), and
-//   - it vanishes when the *result* of fq's own fromjson is passed through fq's `tovalue` (preludeRes), i.e. the
-//     difference is caused by looking into the decode value that fromjson returns (string key on a
-//     non-object gives null, index on null fails, and `?`/`//`/try probes that observe this).
+// A disagreement is attributed to a recorded finding only if the program text contains `fromjson` and a
+// prelude of definitions in front of the program (using fq's own functions) makes fq agree with the reference:
+//
+//	c07-fromjson-of-fromjson-root-string  vanishes when a string-typed decode-value ARGUMENT of fromjson is
+//	      converted with `tovalue` first (fromjson of a root string decode value re-decodes its buffer);
+//	c07-fromjson-decode-value-index       does not vanish with that, but vanishes when also the RESULT of fq's
+//	      fromjson is passed through `tovalue`, i.e. the difference is caused by looking into the decode
+//	      value that fromjson returns (string key on a non-object gives null, index on null fails, and
+//	      `?` / `//` / try / path() probes that observe this).
+const knownFromjsonArg = "c07-fromjson-of-fromjson-root-string"
 const knownFromjson = "c07-fromjson-decode-value-index"
-const preludeArg = `def _c07_fq_fromjson: fromjson; def fromjson: (if _exttype == "decode_value" then tovalue end) | _c07_fq_fromjson; `
-const preludeRes = `def _c07_fq_fromjson: fromjson; def fromjson: (if _exttype == "decode_value" then tovalue end) | _c07_fq_fromjson | tovalue; `
+const preludeArg = `def _c07_fq_fromjson: fromjson; def fromjson: (if _exttype == "decode_value" and type == "string" then tovalue end) | _c07_fq_fromjson; `
+const preludeRes = `def _c07_fq_fromjson: fromjson; def fromjson: (if _exttype == "decode_value" and type == "string" then tovalue end) | _c07_fq_fromjson | tovalue; `
 
-var knownKeys = []string{knownFromjson}
+var knownKeys = []string{knownFromjson, knownFromjsonArg}
 
 func classify(prog string, agrees func(prelude string) bool) string {
 	if !strings.Contains(prog, "fromjson") {
 		return ""
 	}
 	if agrees(preludeArg) {
-		return ""
+		return knownFromjsonArg
 	}
 	if agrees(preludeRes) {
 		return knownFromjson
